@@ -92,7 +92,7 @@ def thunk(line):
         c = gens.op_decode(unhex(a[0]), "f" in fl, "s" in fl, conv="c" in fl)
         return c.call
     if op == "tlv.encode":
-        t = parse_tree(a[1:])
+        t = gens.top_level_form(parse_tree(a[1:]))     # the same Mapping class the generator chose for this content
         return lambda: tlv.encode(t, simple=(a[0] == "s"))
     if op == "cvn":
         cls = a[0]
